@@ -342,7 +342,9 @@ PROPS["C10"] = {
         "pkg": "command",
         "tests": [T("TestC10Probes", {"checks": 120, "shards": 8}, {"checks": 2500, "shards": 16}),
                   T("TestC10Command", {"checks": 16, "shards": 2}, {"checks": 100, "shards": 4}),
-                  T("TestC10KnownDockerNull", {"checks": 1})],
+                  T("TestC10KnownDockerNull", {"checks": 1})] + [
+                  {"name": "TestC10SlowServer", "variant": "slow%d" % i, "quick": {"checks": 1, "env": {"C10_SLOW": i}},
+                   "thorough": {"checks": 4, "env": {"C10_SLOW": i}}} for i in range(2)],
     }],
 }
 
